@@ -421,6 +421,8 @@ class Regex:
                 raise AnalysisError(f"regex {self.pattern!r}: anchor inside the pattern is not supported")
             elif op is sre_c.CATEGORY:
                 self.raws.append(("set", False, (_category_item(av, bool(self.flags & re.ASCII)),)))
+            elif op in (sre_c.ASSERT, sre_c.ASSERT_NOT) and av[0] == 1:
+                self._collect(list(av[1]))   # lookahead: supported at the top level of the pattern (see _lang_from)
             else:
                 raise AnalysisError(f"regex {self.pattern!r}: unsupported construct {op}")
 
@@ -486,26 +488,42 @@ class Regex:
         nfa.trans[cur].append((atoms, nxt))
         return nxt
 
-    def core(self, alpha):
+    def _plain(self, seq, alpha):
         nfa = _NFA()
         s = nfa.new()
-        e = self._build(nfa, self.seq, alpha, s)
+        e = self._build(nfa, seq, alpha, s)
         return _determinize(nfa, s, {e}, alpha)
+
+    def _lang_from(self, seq, alpha, tail):
+        """Language of ``seq`` followed by ``tail`` (what the input may still contain after the pattern), with top-level lookaheads:
+        `A(?=X)B` followed by T is A . ((B . T) intersected with (X . any)); `(?!X)` takes the difference instead."""
+        for i, (op, av) in enumerate(seq):
+            if op in (sre_c.ASSERT, sre_c.ASSERT_NOT):
+                if av[0] != 1:
+                    raise AnalysisError(f"regex {self.pattern!r}: lookbehind is not supported")
+                rest = self._lang_from(seq[i + 1:], alpha, tail)
+                look = self._lang_from(list(av[1]), alpha, DFA.any_string(alpha))
+                rest = rest.intersect(look) if op is sre_c.ASSERT else rest.minus(look)
+                return self._plain(seq[:i], alpha).concat(rest)
+        c = self._plain(seq, alpha)
+        return c if tail is None else c.concat(tail)
+
+    def core(self, alpha):
+        return self._lang_from(self.seq, alpha, None)
 
     def language(self, alpha, mode):
         """Set of full strings s for which <mode>(pattern, s) succeeds."""
-        c = self.core(alpha)
         anystr = DFA.any_string(alpha)
         if mode == "fullmatch":
-            return c
+            return self._lang_from(self.seq, alpha, None)
         if mode in ("match", "search"):
             if self.eol is None:
-                lang = c.concat(anystr)
+                lang = self._lang_from(self.seq, alpha, anystr)
             elif self.eol == "$":
                 nl = DFA.single(alpha, alpha.atoms_of(("set", False, (("lit", 10),))))
-                lang = c.union(c.concat(nl))
+                lang = self._lang_from(self.seq, alpha, DFA.epsilon(alpha).union(nl))
             else:
-                lang = c
+                lang = self._lang_from(self.seq, alpha, None)
             if mode == "search" and not self.bol:
                 lang = anystr.concat(lang)
             return lang
